@@ -23,7 +23,7 @@ def plan(prop, tier, seed):
     q = tier == "quick"
     base = seed * 100000
     S = lambda n, off=0: range(base + off, base + off + n)
-    n_short, n_long, nops = (60, 40, 18) if q else (700, 500, 35)
+    n_short, n_long, nops = (240, 120, 20) if q else (2400, 1200, 35)
     jobs = []
     if prop in ("C01", "C02", "C03", "C04", "C05", "C07", "C08", "C10", "C13", "C20", "C19"):
         jobs += _hist(prop, S(n_short), nops=nops, alpha="short")
@@ -52,7 +52,7 @@ def plan(prop, tier, seed):
     if prop == "C11":
         jobs += _hist(prop, S(n_short), nops=nops, alpha="short", backend="twin", reopen=True, clear=True)
         jobs += _hist(prop, S(n_long // 2, 5000), nops=nops, alpha="long", backend="twin", reopen=True, clear=True)
-        jobs += _hist(prop, S(n_short // 2, 9000), nops=20, mode="rules", kinds=["page", "page", "links", "rule", "reopen", "reopen", "clear"], backend="twin")
+        jobs += _hist(prop, S(n_short, 9000), nops=20, mode="rules", kinds=["page", "page", "page", "links", "rule", "reopen", "reopen", "clear"], backend="twin")
     if prop == "C12":
         kinds = ["create", "create", "@del", "@addp", "@move", "page", "reopen", "reopen", "clear"]
         jobs += _hist(prop, S(n_short), nops=nops, alpha="tiny", kinds=kinds)
